@@ -3,7 +3,7 @@ CONSTANTS
   Local = 0
   Known = {0, 1, 2}
   U = {1, 2, 11, 12, 21, 31, 90}
-  U2 = {1, 11, 90}
+  U2 = {11, 90}
   MaxSet = {2, 9}
   Flags = {"none", "other", "count", "limit", "offset", "order"}
   Faults = {"err", "noprog", "extra", "lie"}
